@@ -31,7 +31,7 @@ func init() {
 		Run: run,
 		Floors: func(t string) map[string]int64 {
 			return map[string]int64{"cfg.entirely_inside": 100, "cfg.entirely_outside_bbox_overlap": 100, "cfg.entirely_outside_bbox_disjoint": 100, "cfg.crosses_hole": 100, "cfg.enters_several_times": 200, "cfg.two_vertex_line": 100,
-				"recv.MultiLineString": 300, "arg.*Bounds": 100, "arg.MultiPolygon": 300, "arg.Polygon": 300, "result.vertices_checked": 5000, "line.long": 100, "line.axis_parallel": 500, "line.all_vertices_in_one_hole": 300, "line.vertices_around_one_hole": 300, "storage.paths_share_one_backing_array": 500}
+				"recv.MultiLineString": 300, "arg.*Bounds": 100, "arg.MultiPolygon": 300, "arg.Polygon": 300, "result.vertices_checked": 5000, "line.long": 100, "line.axis_parallel": 500, "line.all_vertices_in_one_hole": 300, "line.vertices_around_one_hole": 300, "line.long_approach>=511": 150, "storage.paths_share_one_backing_array": 500}
 		},
 	})
 }
@@ -163,7 +163,7 @@ func run(c *core.Ctx, idx int) {
 	r := c.R
 	scale := math.Pow(10, r.Range(-2, 3))
 	ox, oy := r.Range(-5, 5)*scale, r.Range(-5, 5)*scale
-	cfgHint := r.Intn(8)
+	cfgHint := r.Intn(9)
 	kind := polyKinds[r.Intn(len(polyKinds))]
 	if cfgHint == 6 {
 		kind = "starholes" // every line vertex inside one (concave) hole, in different arms of it
@@ -232,6 +232,39 @@ func run(c *core.Ctx, idx int) {
 		lines = append(lines, l)
 		nl = 0
 		c.Count("line.vertices_around_one_hole")
+	}
+	if cfgHint == 8 {
+		// a long approach: hundreds to thousands of vertices far outside the polygon's bounding
+		// box, then the line arrives (vertex index next to a multiple of 512 / 1024, or anywhere),
+		// crosses the polygon and leaves; monotone along its direction, hence simple
+		arrive := []int{100, 255, 256, 257, 511, 512, 513, 1023, 1024, 1025, 1535, 1536, 2047, 2048, 2049}[r.Intn(15)]
+		if r.Chance(0.3) {
+			arrive = r.IntRange(2, 2100)
+		}
+		th := r.Range(0, 2*math.Pi)
+		ux, uy := math.Cos(th), math.Sin(th)
+		rb := op.Out * 1.5
+		var l []geom.Point
+		for i := 0; i < arrive; i++ {
+			t := 8*rb - (8*rb-1.6*rb)*float64(i)/float64(arrive) // from 8 rb down to 1.6 rb: outside the box
+			w := r.Range(-0.3, 0.3) * rb
+			l = append(l, geom.Point{X: op.Cx + t*ux - w*uy, Y: op.Cy + t*uy + w*ux})
+		}
+		m := r.IntRange(2, 12)
+		for i := 0; i < m; i++ {
+			t := 1.2*rb - 2.6*rb*float64(i)/float64(m-1)*r.Range(0.9, 1) // through the polygon to the far side
+			if i > 0 && t >= 1.2*rb-2.6*rb*float64(i-1)/float64(m-1) {
+				t = 1.2*rb - 2.6*rb*float64(i)/float64(m-1)
+			}
+			w := r.Range(-0.5, 0.5) * op.Out
+			l = append(l, geom.Point{X: op.Cx + t*ux - w*uy, Y: op.Cy + t*uy + w*ux})
+		}
+		lines = append(lines, l)
+		nl = 0
+		c.Count("line.long_approach")
+		if arrive >= 511 {
+			c.Count("line.long_approach>=511")
+		}
 	}
 	for k := 0; k < nl; k++ {
 		n := r.IntRange(2, 14)
